@@ -102,7 +102,11 @@ def gen_bool(rng, d):
 
 
 def gen_pred(rng, d):
-    return gen_bool(rng, d) if rng.random() < .8 else gen_num(rng, d)
+    if rng.random() < .8:
+        return gen_bool(rng, d)
+    if rng.random() < .35:
+        return ['ar', 'div', gen_num(rng, max(0, d - 1)), ['num', rng.randint(1, 3)]]
+    return gen_num(rng, d)
 
 
 def gen_path(rng, maxsteps=3, maxpreds=2, depth=2):
@@ -419,7 +423,14 @@ class C14(core.Check):
                  ['num', 1], ['num', 2], ['last'], ['ar', '-', ['last'], ['num', 1]], ['contains', ['attr', 'k'], ['str', 'x']],
                  ['cmp', '=', ['pos'], ['last']], ['cmp', '=', ['nspace', None], ['str', 'x']], ['cmp', '=', ['text'], ['str', 't']],
                  ['and', ['cmp', '>', ['attr', 'n'], ['num', 1]], ['cmp', '=', ['attr', 'k'], ['attr', 'm']]],
-                 ['cmp', '=', ['cat', ['attr', 'k'], ['str', 'y']], ['concat', [['str', 'x'], ['attr', 'm']]]]]
+                 ['cmp', '=', ['cat', ['attr', 'k'], ['str', 'y']], ['concat', [['str', 'x'], ['attr', 'm']]]],
+                 # numeric predicates that are not integral, or integral only after division
+                 ['ar', 'div', ['last'], ['num', 2]], ['ar', 'div', ['attr', 'n'], ['num', 2]], ['ar', 'div', ['ar', '+', ['pos'], ['num', 1]], ['num', 2]],
+                 ['ar', 'div', ['num', 3], ['num', 2]], ['ar', '*', ['pos'], ['ar', 'div', ['num', 3], ['num', 4]]],
+                 ['ar', '-', ['last'], ['ar', 'div', ['num', 1], ['num', 2]]],
+                 # the element's own text versus the text of its subtree
+                 ['cmp', '!=', ['nspace', None], ['str', '']], ['contains', ['nspace', None], ['str', 'x']], ['cmp', '=', ['nspace', None], ['str', 't']],
+                 ['cmp', '=', ['nspace', None], ['str', 'u']], ['cmp', '=', ['text'], ['str', '']], ['contains', ['text'], ['str', 't']]]
         step1 = [[lead, ax, nm, pr_] for lead in ('/', '//') for ax in (None, 'child', 'descendant', 'descendant-or-self', 'parent', 'ancestor', 'ancestor-or-self')
                  for nm in NAMES + ['*'] for pr_ in [[]] + [[a] for a in atoms]]
         for s in step1:
@@ -427,7 +438,7 @@ class C14(core.Check):
         for a, b in itertools.product(step1[::7], step1[::5]):
             small.append([a, b])
         rng.shuffle(small)
-        nsmall = 250 if self.tier == 'quick' else len(small)
+        nsmall = 450 if self.tier == 'quick' else len(small)
         for i, steps in enumerate(small[:nsmall]):
             cases.append(dict(doc=docs[i % len(docs)], steps=steps, seed=rng.randrange(1 << 30), frm=rng.choice(['doc', 'doc', 'elem', 'coll']), sel=rng.random()))
         nrand = 250 if self.tier == 'quick' else 6000
